@@ -1,4 +1,5 @@
 import PlumVerif.Proofs.Conn
+import PlumVerif.Proofs.ConnFrames
 /-
 Helper lemmas for C12 (close() terminates and leaves nothing running).
 -/
@@ -49,10 +50,13 @@ theorem subTasks_shutDev (d : Dev) : subTasks (shutDev d) = 0 := by
 no device or sub-device task is left -/
 theorem deviceTasks_after_shutdown (s : St) (t0 : Nat) (hs : ∀ d ∈ s.devices, d.setup = .done) :
     deviceTasks (finishClose s t0).1 = 0 := by
-  simp only [deviceTasks, setupTasks, devOwnTasks, subOwnTasks, finishClose, List.map_map]
-  rw [sum_map_zero, sum_map_zero, sum_map_zero]
+  simp only [deviceTasks, setupTasks, reqTasks, devOwnTasks, subOwnTasks, finishClose, List.map_map]
+  rw [sum_map_zero, sum_map_zero, sum_map_zero, sum_map_zero]
   · intro d _; exact subTasks_shutDev d
   · intro d _; rfl
+  · intro d hd
+    have : (shutDev d).setup = .done := hs d hd
+    simp [Function.comp, reqAlive, this]
   · intro d hd
     have : (shutDev d).setup = .done := hs d hd
     simp [Function.comp, setupAlive, this]
@@ -159,7 +163,7 @@ theorem cancelProto_halted_after (s : St) (hrc : (cancelProto s).recon = .idle) 
 
 /-- the tail of `shutdown()` (after `Queues.join` returned) under the modelled scheduler:
 cancel, close the writer (waiting at most WRITER_TIMEOUT for `wait_closed`), shut the devices -/
-theorem shutdown_completes (s : St) (t0 : Nat) (hj : s.closing = .joined t0)
+theorem shutdown_completes (s : St) (t0 : Nat) (hj : s.closing = .joined t0) (hrj : s.rj = true)
     (hr : reconOwner s.recon = none ∨ reconOwner s.recon = some .proto) :
     Closed (run s [.shutdownRun, .advance writerTO, .tick .cwcloseTO]).1 t0 (s.now - t0 + writerTO) := by
   have hnd : isDone s.closing = false := by rw [hj]; rfl
@@ -170,7 +174,7 @@ theorem shutdown_completes (s : St) (t0 : Nat) (hj : s.closing = .joined t0)
     · simp [h]
   have e1 : (step s .shutdownRun).1 = (shutdownTail (cancelProto s) t0).1 := by
     have : step s .shutdownRun = shutdownRun s := by simp [step, hnd]
-    rw [this]; simp only [shutdownRun, hj]
+    rw [this]; simp only [shutdownRun, hj, hrj, ↓reduceIte]
   have hsplit : run s [.shutdownRun, .advance writerTO, .tick .cwcloseTO]
       = run (step s .shutdownRun).1 [.advance writerTO, .tick .cwcloseTO] ∨ True := Or.inr trivial
   have hrun1 : (run s [.shutdownRun, .advance writerTO, .tick .cwcloseTO]).1
@@ -211,6 +215,7 @@ structure Draining (s : St) (t0 dl : Nat) : Prop where
   recon : s.recon = .idle
   nosetup : NoSetupTimers s
   queued : s.writeQ ≠ []
+  rj : s.rj = true
 
 /-- arrival gaps of a controller that keeps sending: every frame arrives before the deadline of
 the read in progress (`dl` for the first one, READER_TIMEOUT after the previous arrival then) -/
@@ -233,7 +238,7 @@ theorem latch_now (x : St) : (latch x).now = x.now := by
 /-- one arrival: the producer sends the head of the queue and reads again -/
 theorem drain_step {s : St} {t0 dl : Nat} (h : Draining s t0 dl) (g : Nat) (hg : s.now + g ≤ dl) :
     let s' := (run s [.advance g, .feed .foreign]).1
-    s'.now = s.now + g ∧ s'.writeQ = s.writeQ.tail ∧ reconOwner s'.recon = none ∧
+    s'.now = s.now + g ∧ s'.writeQ = s.writeQ.tail ∧ reconOwner s'.recon = none ∧ s'.rj = true ∧
     ((s.writeQ.tail = [] ∧ s'.closing = .joined t0) ∨
      (s.writeQ.tail ≠ [] ∧ Draining s' t0 (s.now + g + readerTO))) := by
   have hnd : isDone s.closing = false := by rw [h.closing]; rfl
@@ -268,17 +273,22 @@ theorem drain_step {s : St} {t0 dl : Nat} (h : Draining s t0 dl) (g : Nat) (hg :
   let b : St := { a with writeQ := rest, pphase := .reading (a.now + readerTO) }
   have e2 : (step a (.feed .foreign)).1 = latch b := by
     have hnda : isDone a.closing = false := hnd
-    simp [step, hnda, feed, hp0, hc0, hra, prodIO, hio, handle, b]
+    simp [step, hnda, feed, hp0, hra, prodIO, hio, Feed.addr?, b]
   have hrun : (run s [.advance g, .feed .foreign]).1 = latch b := by
     simp only [run, e1]; exact e2
   simp only [hrun, hq, List.tail_cons]
   have hbc : b.closing = .joining t0 := h.closing
   have hunf : unfinished b = rest.length := by
     simp [unfinished, b, isWriting]
-  refine ⟨?_, ?_, ?_, ?_⟩
+  have latch_rj : ∀ x : St, (latch x).rj = x.rj := by
+    intro x; unfold latch; split
+    · split <;> rfl
+    · rfl
+  refine ⟨?_, ?_, ?_, ?_, ?_⟩
   · rw [latch_now]
   · rw [latch_writeQ]
   · have := (same_latch b).recon; rw [this]; show reconOwner s.recon = none; rw [h.recon]; rfl
+  · rw [latch_rj]; exact h.rj
   · by_cases hr : rest = []
     · left
       refine ⟨hr, ?_⟩
@@ -290,14 +300,14 @@ theorem drain_step {s : St} {t0 dl : Nat} (h : Draining s t0 dl) (g : Nat) (hg :
         have : rest.length ≠ 0 := by simpa using hr
         simp [hunf, this]
       rw [hl]
-      exact ⟨h.closing, h.prod, rfl, h.cons, h.drain, h.writer, h.recon, h.nosetup, hr⟩
+      exact ⟨h.closing, h.prod, rfl, h.cons, h.drain, h.writer, h.recon, h.nosetup, hr, h.rj⟩
 
 /-- all queued frames go out, one per arrival; then `Queues.join` returns -/
 theorem drain_all : ∀ (gaps : List Nat) (s : St) (t0 dl : Nat), Draining s t0 dl → gaps.length = s.writeQ.length →
     GapsOk dl s.now gaps →
     let s' := (run s (drainEvs gaps)).1
     s'.closing = .joined t0 ∧ reconOwner s'.recon = none ∧ s'.now = s.now + gaps.sum ∧
-    s.now + gaps.sum ≤ dl + (gaps.length - 1) * readerTO
+    s.now + gaps.sum ≤ dl + (gaps.length - 1) * readerTO ∧ s'.rj = true
   | [], s, t0, dl, h, hl, _ => by
     have := h.queued
     have : s.writeQ = [] := List.eq_nil_of_length_eq_zero (by simpa using hl.symm)
@@ -306,7 +316,7 @@ theorem drain_all : ∀ (gaps : List Nat) (s : St) (t0 dl : Nat), Draining s t0 
     obtain ⟨hg1, hg2⟩ := hg
     have hs := drain_step h g hg1
     simp only at hs
-    obtain ⟨hn, hq, hro, hcase⟩ := hs
+    obtain ⟨hn, hq, hro, hrj, hcase⟩ := hs
     have hev : drainEvs (g :: gs) = [.advance g, .feed .foreign] ++ drainEvs gs := by
       simp [drainEvs, List.flatMap_cons]
     simp only [hev, run_append]
@@ -325,7 +335,7 @@ theorem drain_all : ∀ (gaps : List Nat) (s : St) (t0 dl : Nat), Draining s t0 
       have hnil' : drainEvs ([] : List Nat) = [] := rfl
       have hrn : ∀ x : St, (run x []).1 = x := fun _ => rfl
       simp only [hnil', hrn, List.sum_cons, List.sum_nil, List.length_cons, List.length_nil]
-      exact ⟨hj, hro, by omega, by omega⟩
+      exact ⟨hj, hro, by omega, by omega, hrj⟩
     · have hlen : gs.length = (run s [.advance g, .feed .foreign]).1.writeQ.length := by
         rw [hq]
         cases hq' : s.writeQ with
@@ -335,8 +345,8 @@ theorem drain_all : ∀ (gaps : List Nat) (s : St) (t0 dl : Nat), Draining s t0 
         rw [hn]; exact hg2
       have ih := drain_all gs _ t0 _ hd hlen hg2'
       simp only at ih
-      obtain ⟨i1, i2, i3, i4⟩ := ih
-      refine ⟨i1, i2, ?_, ?_⟩
+      obtain ⟨i1, i2, i3, i4, i5⟩ := ih
+      refine ⟨i1, i2, ?_, ?_, i5⟩
       · rw [i3, hn, List.sum_cons]; omega
       · rw [hn] at i4
         simp only [List.sum_cons, List.length_cons]
@@ -351,9 +361,88 @@ theorem drain_all : ∀ (gaps : List Nat) (s : St) (t0 dl : Nat), Draining s t0 
         rw [hmul]; omega
 
 
+/-! ### draining in one burst (frames arrive back to back): pending set-up timers do not matter -/
+
+/-- like `Draining`, without any assumption on device set-ups in progress -/
+structure DrainingB (s : St) (t0 : Nat) : Prop where
+  closing : s.closing = .joining t0
+  prod : s.producers > 0
+  reading : isReading s.pphase = true
+  drain : s.wdrain = .ok
+  writer : s.writer.isSome = true
+  recon : s.recon = .idle
+  queued : s.writeQ ≠ []
+  rj : s.rj = true
+
+theorem burst_step {s : St} {t0 : Nat} (h : DrainingB s t0) :
+    let s' := (step s (.feed .foreign)).1
+    s'.now = s.now ∧ s'.writeQ = s.writeQ.tail ∧ reconOwner s'.recon = none ∧ s'.rj = true ∧
+    ((s.writeQ.tail = [] ∧ s'.closing = .joined t0) ∨ (s.writeQ.tail ≠ [] ∧ DrainingB s' t0)) := by
+  have hnd : isDone s.closing = false := by rw [h.closing]; rfl
+  obtain ⟨k, rest, hq⟩ : ∃ k rest, s.writeQ = k :: rest := by
+    cases hq : s.writeQ with
+    | nil => exact absurd hq h.queued
+    | cons k rest => exact ⟨k, rest, rfl⟩
+  obtain ⟨tid, htid⟩ := Option.isSome_iff_exists.mp h.writer
+  have hp0 : s.producers ≠ 0 := by have := h.prod; omega
+  have hio : prodIO' s = ({ s with writeQ := rest, pphase := .reading (s.now + readerTO) }, [.tx tid k]) := by
+    simp [prodIO', hq, htid, h.drain]
+  let b : St := { s with writeQ := rest, pphase := .reading (s.now + readerTO) }
+  have e2 : (step s (.feed .foreign)).1 = latch b := by
+    simp [step, hnd, feed, hp0, h.reading, prodIO, hio, Feed.addr?, b]
+  simp only [e2, hq, List.tail_cons]
+  have hbc : b.closing = .joining t0 := h.closing
+  have hunf : unfinished b = rest.length := by simp [unfinished, b, isWriting]
+  have latch_rj : ∀ x : St, (latch x).rj = x.rj := by
+    intro x; unfold latch; split
+    · split <;> rfl
+    · rfl
+  refine ⟨?_, ?_, ?_, ?_, ?_⟩
+  · rw [latch_now]
+  · rw [latch_writeQ]
+  · have := (same_latch b).recon; rw [this]; show reconOwner s.recon = none; rw [h.recon]; rfl
+  · rw [latch_rj]; exact h.rj
+  · by_cases hr : rest = []
+    · left
+      refine ⟨hr, ?_⟩
+      unfold latch; rw [hbc]; simp [hunf, hr]
+    · right
+      refine ⟨hr, ?_⟩
+      have hl : latch b = b := by
+        unfold latch; rw [hbc]
+        have : rest.length ≠ 0 := by simpa using hr
+        simp [hunf, this]
+      rw [hl]
+      exact ⟨h.closing, h.prod, rfl, h.drain, h.writer, h.recon, hr, h.rj⟩
+
+theorem burst_all : ∀ (n : Nat) (s : St) (t0 : Nat), DrainingB s t0 → n = s.writeQ.length →
+    let s' := (run s (List.replicate n (.feed .foreign))).1
+    s'.closing = .joined t0 ∧ reconOwner s'.recon = none ∧ s'.now = s.now ∧ s'.rj = true
+  | 0, s, t0, h, hn => by
+    have : s.writeQ = [] := List.eq_nil_of_length_eq_zero hn.symm
+    exact absurd this h.queued
+  | n + 1, s, t0, h, hn => by
+    have hs := burst_step h
+    simp only at hs
+    obtain ⟨h1, h2, h3, h4, hcase⟩ := hs
+    have hlen : s.writeQ.tail.length = n := by
+      cases hq : s.writeQ with
+      | nil => exact absurd hq h.queued
+      | cons a b => rw [hq] at hn; simp at hn ⊢; omega
+    simp only [List.replicate_succ, run]
+    rcases hcase with ⟨hnil, hj⟩ | ⟨hne, hd⟩
+    · have hn0 : n = 0 := by rw [hnil] at hlen; simpa using hlen.symm
+      subst hn0
+      simp only [List.replicate_zero, run]
+      exact ⟨hj, h3, h1, h4⟩
+    · have ih := burst_all n (step s (.feed .foreign)).1 t0 hd (by rw [h2]; exact hlen.symm)
+      simp only at ih
+      obtain ⟨i1, i2, i3, i4⟩ := ih
+      exact ⟨i1, i2, i3.trans h1, i4⟩
+
 theorem beginJoin_closing (s : St) :
     (beginJoin s).closing = if unfinished s = 0 then .joined s.now else .joining s.now := by
-  have hu : unfinished { s with closing := .joining s.now } = unfinished s := rfl
+  have hu : unfinished { s with closing := .joining s.now, rj := s.rUnf == 0 } = unfinished s := rfl
   by_cases h : unfinished s = 0
   · simp only [beginJoin, latch, hu, h, ↓reduceIte]
   · simp only [beginJoin, latch, hu, h, ↓reduceIte]
@@ -361,8 +450,9 @@ theorem beginJoin_closing (s : St) :
 theorem beginJoin_fields (s : St) :
     (beginJoin s).now = s.now ∧ (beginJoin s).writeQ = s.writeQ ∧ (beginJoin s).producers = s.producers ∧
     (beginJoin s).pphase = s.pphase ∧ (beginJoin s).consumers = s.consumers ∧ (beginJoin s).wdrain = s.wdrain ∧
-    (beginJoin s).writer = s.writer ∧ (beginJoin s).recon = s.recon ∧ (beginJoin s).devices = s.devices := by
-  have hu : unfinished { s with closing := .joining s.now } = unfinished s := rfl
+    (beginJoin s).writer = s.writer ∧ (beginJoin s).recon = s.recon ∧ (beginJoin s).devices = s.devices ∧
+    (beginJoin s).rj = (s.rUnf == 0) := by
+  have hu : unfinished { s with closing := .joining s.now, rj := s.rUnf == 0 } = unfinished s := rfl
   by_cases h : unfinished s = 0
   · simp only [beginJoin, latch, hu, h, ↓reduceIte, and_self]
   · simp only [beginJoin, latch, hu, h, ↓reduceIte, and_self]
@@ -370,7 +460,8 @@ theorem beginJoin_fields (s : St) :
 theorem cancelConn_fields (s : St) :
     (cancelConn s).now = s.now ∧ (cancelConn s).writeQ = s.writeQ ∧ (cancelConn s).producers = s.producers ∧
     (cancelConn s).pphase = s.pphase ∧ (cancelConn s).consumers = s.consumers ∧ (cancelConn s).wdrain = s.wdrain ∧
-    (cancelConn s).writer = s.writer ∧ (cancelConn s).devices = s.devices ∧ (cancelConn s).closing = s.closing := by
+    (cancelConn s).writer = s.writer ∧ (cancelConn s).devices = s.devices ∧ (cancelConn s).closing = s.closing ∧
+    (cancelConn s).rUnf = s.rUnf := by
   unfold cancelConn; split <;> simp only [and_self]
 
 theorem unfinished_cancelConn (s : St) : unfinished (cancelConn s) = unfinished s := by
@@ -404,6 +495,9 @@ theorem Grow.refl (s : St) : Grow s s := ⟨rfl, Nat.le_refl _, rfl⟩
 
 theorem Grow.trans {a b c : St} (h1 : Grow a b) (h2 : Grow b c) : Grow a c :=
   ⟨h2.closing.trans h1.closing, Nat.le_trans h1.queue h2.queue, h2.pphase.trans h1.pphase⟩
+
+theorem Frames.grow {s s' : St} (f : Frames s s') : Grow s s' :=
+  ⟨f.closing, by rw [f.writeQ]; exact Nat.le_refl _, f.pphase⟩
 
 theorem stuck_latch {s : St} {t0 : Nat} (h : Stuck s t0) : latch s = s := by
   unfold latch; rw [h.closing]
@@ -541,6 +635,9 @@ theorem stuck_step {s : St} {t0 : Nat} (h : Stuck s t0) (e : Ev) (hf : isFeed e 
     · exact stuck_lostFinish (s := { s with lostMid := false }) (h.of_grow ⟨rfl, Nat.le_refl _, rfl⟩)
   | shutdownRun => simp only [shutdownRun, h.closing]; exact h
   | setupGo => exact h.of_grow (grow_setupGo s)
+  | gate a => exact h.of_grow (Frames.grow (frames_gateEv s a))
+  | release => exact h.of_grow (Frames.grow (frames_release s))
+  | take => exact h.of_grow (Frames.grow (frames_take s))
 
 theorem stuck_run {s : St} {t0 : Nat} (h : Stuck s t0) (es : List Ev) (hf : ∀ e ∈ es, isFeed e = false) :
     Stuck (run s es).1 t0 := by
@@ -573,12 +670,12 @@ theorem dead_step {s : St} {t0 : Nat} (h : Dead s) (hc : s.closing = .joining t0
   | connect => simp [hcl]; exact h
   | feed f => simp [feed, hp]; exact h
   | readFault => simp [hp]; exact h
-  | setDrain m => simp only []; split <;> first | exact h | exact h.of_same ⟨rfl, rfl, rfl, rfl, rfl, rfl, rfl⟩
-  | setClose m => simp only []; split <;> first | exact h | exact h.of_same ⟨rfl, rfl, rfl, rfl, rfl, rfl, rfl⟩
-  | enq n => exact h.of_same ⟨rfl, rfl, rfl, rfl, rfl, rfl, rfl⟩
+  | setDrain m => simp only []; split <;> first | exact h | exact h.of_same ⟨rfl, rfl, rfl, rfl, rfl, Nat.le_refl _, rfl⟩
+  | setClose m => simp only []; split <;> first | exact h | exact h.of_same ⟨rfl, rfl, rfl, rfl, rfl, Nat.le_refl _, rfl⟩
+  | enq n => exact h.of_same ⟨rfl, rfl, rfl, rfl, rfl, Nat.le_refl _, rfl⟩
   | park t => exact h.of_same (same_park s t)
   | close => simp [closeEv, hcl]; exact h
-  | advance dt => simp only []; split <;> first | exact h | exact h.of_same ⟨rfl, rfl, rfl, rfl, rfl, rfl, rfl⟩
+  | advance dt => simp only []; split <;> first | exact h | exact h.of_same ⟨rfl, rfl, rfl, rfl, rfl, Nat.le_refl _, rfl⟩
   | tick k =>
     simp only []
     unfold fire
@@ -600,5 +697,109 @@ theorem dead_step {s : St} {t0 : Nat} (h : Dead s) (hc : s.closing = .joining t0
   | lostRun2 => simp [lostRun2, h.lm]; exact h
   | shutdownRun => simp only [shutdownRun, hc]; exact h
   | setupGo => exact h.of_same (same_setupGo s)
+  | gate a => exact h.of_same (frames_gateEv s a).same
+  | release => exact h.of_same (frames_release s).same
+  | take => exact h.of_same (frames_take s).same
+
+
+/-- the read-queue side of F1: close() waits in `read.join()`, frames are left in the read queue,
+no consumer is alive, nothing is connected and nothing reconnects -/
+structure StuckRead (s : St) : Prop where
+  joining : isJoining s.closing = true
+  rj : s.rj = false
+  unf : s.rUnf ≥ 1
+  cons : s.consumers = 0
+  hand : s.hand = []
+  dead : Dead s
+
+/-- same waiting-for-the-read-queue state -/
+structure KeepR (s s' : St) : Prop where
+  closing : isJoining s'.closing = isJoining s.closing
+  rj : s'.rj = s.rj
+  rUnf : s'.rUnf = s.rUnf
+  consumers : s'.consumers = s.consumers
+  hand : s'.hand = s.hand
+  core : SameCore s s'
+
+theorem StuckRead.keep {s s' : St} (h : StuckRead s) (k : KeepR s s') : StuckRead s' :=
+  ⟨by rw [k.closing]; exact h.joining, by rw [k.rj]; exact h.rj, by rw [k.rUnf]; exact h.unf,
+   by rw [k.consumers]; exact h.cons, by rw [k.hand]; exact h.hand, h.dead.of_same k.core⟩
+
+theorem keepr_fireSetup (s : St) (a : Nat) : KeepR s (fireSetup s a).1 := by
+  refine ⟨?_, ?_, (kq_fireSetup s a).rUnf, (kq_fireSetup s a).consumers, (kq_fireSetup s a).hand, same_fireSetup s a⟩
+  · rw [(grow_fireSetup s a).closing]
+  · unfold fireSetup; split
+    · rfl
+    · split
+      · split <;> rfl
+      · rfl
+
+theorem setupGo_rj (s : St) : (setupGo s).1.rj = s.rj := by unfold setupGo; split <;> rfl
+theorem gateEv_rj (s : St) (a : Nat) : (gateEv s a).rj = s.rj := by unfold gateEv; split <;> rfl
+theorem park_rj (s : St) (t : Target) : (park s t).rj = s.rj := by cases t <;> rfl
+theorem park_closing (s : St) (t : Target) : (park s t).closing = s.closing := by cases t <;> rfl
+
+theorem stuckread_step {s : St} (h : StuckRead s) (e : Ev) : StuckRead (step s e).1 := by
+  have hj := h.joining
+  have hnd : isDone s.closing = false := by cases hc : s.closing <;> simp_all [isJoining, isDone]
+  have hcl : s.closing ≠ .no := by intro hc; rw [hc] at hj; cases hj
+  have hp := h.dead.prod
+  have hidle : idle s = 0 := by unfold idle; rw [h.cons]; simp
+  have R : KeepR s s := ⟨rfl, rfl, rfl, rfl, rfl, SameCore.refl s⟩
+  unfold step
+  rw [hnd]
+  simp only [Bool.false_eq_true, ↓reduceIte]
+  cases e with
+  | connect => simp [hcl]; exact h
+  | feed f => simp [feed, hp]; exact h
+  | readFault => simp [hp]; exact h
+  | setDrain m => simp only []; split <;> first | exact h | exact h.keep ⟨rfl, rfl, rfl, rfl, rfl, ⟨rfl, rfl, rfl, rfl, rfl, Nat.le_refl _, rfl⟩⟩
+  | setClose m => simp only []; split <;> first | exact h | exact h.keep ⟨rfl, rfl, rfl, rfl, rfl, ⟨rfl, rfl, rfl, rfl, rfl, Nat.le_refl _, rfl⟩⟩
+  | enq n => exact h.keep ⟨rfl, rfl, rfl, rfl, rfl, ⟨rfl, rfl, rfl, rfl, rfl, Nat.le_refl _, rfl⟩⟩
+  | park t =>
+    exact h.keep ⟨by rw [park_closing], park_rj s t, (kq_park s t).rUnf, (kq_park s t).consumers, (kq_park s t).hand, same_park s t⟩
+  | close => simp [closeEv, hcl]; exact h
+  | advance dt => simp only []; split <;> first | exact h | exact h.keep ⟨rfl, rfl, rfl, rfl, rfl, ⟨rfl, rfl, rfl, rfl, rfl, Nat.le_refl _, rfl⟩⟩
+  | tick k =>
+    simp only []
+    unfold fire
+    split
+    · exact h
+    · rename_i dl hdl
+      split
+      · exact h
+      · cases k with
+        | readTO => simp [deadline?, hp] at hdl
+        | writeTO => simp [deadline?, hp] at hdl
+        | wcloseTO => simp [deadline?, h.dead.recon] at hdl
+        | openTO => simp [deadline?, h.dead.recon] at hdl
+        | backoffEnd => simp [deadline?, h.dead.recon] at hdl
+        | setup a => exact h.keep (keepr_fireSetup s a)
+        | cwcloseTO =>
+          simp only [deadline?] at hdl
+          cases hc : s.closing <;> simp_all [isJoining]
+  | prodStart => simp [hp]; exact h
+  | lostRun => simp [lostRun, h.dead.lp]; exact h
+  | lostRun2 => simp [lostRun2, h.dead.lm]; exact h
+  | shutdownRun =>
+    simp only [shutdownRun]
+    split
+    · simp [h.rj]; exact h
+    · exact h
+  | setupGo =>
+    exact h.keep ⟨by rw [(grow_setupGo s).closing], setupGo_rj s, (kq_setupGo s).rUnf, (kq_setupGo s).consumers, (kq_setupGo s).hand, same_setupGo s⟩
+  | gate a =>
+    exact h.keep ⟨by rw [(frames_gateEv s a).closing], gateEv_rj s a, (kq_gateEv s a).rUnf, (kq_gateEv s a).consumers, (kq_gateEv s a).hand, (frames_gateEv s a).same⟩
+  | release =>
+    have f : release s = ({ s with gates := [] }, []) := by simp [release, h.hand, finishAll]
+    rw [f]
+    exact h.keep ⟨rfl, rfl, rfl, rfl, rfl, ⟨rfl, rfl, rfl, rfl, rfl, Nat.le_refl _, rfl⟩⟩
+  | take =>
+    have f : take s = (s, []) := by
+      unfold take
+      split
+      · rfl
+      · simp [hidle]
+    rw [f]; exact h
 
 end PlumVerif.Conn
